@@ -66,13 +66,13 @@ class Bada3EngineModel(ABC):
         """
 
         delta_temperature = temperature - temperature_at_altitude_isa_bada4(altitude)
-        delta_temperature_eff = delta_temperature - self.aircraft_parameters['c_tc4']
+        delta_temperature_eff = delta_temperature - self.aircraft_parameters.c_tc4
 
         return self.calculate_max_climb_thrust_isa(altitude, v_tas) * (
             1
             - np.clip(
                 delta_temperature_eff
-                * np.maximum(0, self.aircraft_parameters['c_tc5']),
+                * np.maximum(0, self.aircraft_parameters.c_tc5),
                 0,
                 0.4,
             )
@@ -128,9 +128,9 @@ class Bada3EngineModel(ABC):
         Union[float, NDArray]
             Descent thrust [N].
         """
-        return self.aircraft_parameters[
-            'c_tdes_high'
-        ] * self.calculate_max_climb_thrust(altitude, v_tas, temperature)
+        return self.aircraft_parameters.c_tdes_high * self.calculate_max_climb_thrust(
+            altitude, v_tas, temperature
+        )
 
     def calculate_descent_thrust_low(
         self,
@@ -228,8 +228,8 @@ class Bada3JetEngineModel(Bada3EngineModel):
             Specific fuel consumption [kg/N/s].
         """
         return (
-            self.aircraft_parameters['c_f1']
-            * (1 + v_tas * MPS_TO_KNOTS / self.aircraft_parameters['c_f2'])
+            self.aircraft_parameters.c_f1
+            * (1 + v_tas * MPS_TO_KNOTS / self.aircraft_parameters.c_f2)
             / (60 * 1000)
         )
 
@@ -272,7 +272,7 @@ class Bada3JetEngineModel(Bada3EngineModel):
         return (
             self.calculate_specific_fuel_consumption(v_tas)
             * thrust
-            * self.aircraft_parameters['c_fcr']
+            * self.aircraft_parameters.c_fcr
         )
 
     def calculate_max_climb_thrust_isa(
@@ -294,10 +294,10 @@ class Bada3JetEngineModel(Bada3EngineModel):
             Maximum climb thrust [N].
         """
         altitude_ft = altitude * METERS_TO_FEET
-        return self.aircraft_parameters['c_tc1'] * (
+        return self.aircraft_parameters.c_tc1 * (
             1
-            - altitude_ft / self.aircraft_parameters['c_tc2']
-            + self.aircraft_parameters['c_tc3'] * altitude_ft**2
+            - altitude_ft / self.aircraft_parameters.c_tc2
+            + self.aircraft_parameters.c_tc3 * altitude_ft**2
         )
 
 
